@@ -19,6 +19,7 @@ func init() {
 			"'also beyond 65534 entries' (writer, reader and size estimator of the 0xFFFF count convention tabulated and agreeing); plus: Free rejects ids <= 1 and already-free ids before mutating. " +
 			"NOT decided: the input/output specification of Allocate/Free/Release over operation sequences (sets of integers, span arithmetic), rollback restoring exactly the prior state, serialise/re-read preserving the sets — all value-level. Round 3: txPending.ids/alloctx stay index-aligned (alloctx[i] is the allocating txid of ids[i]); hashMap.Allocate hands out only spans of at least n pages (exact path keyed by n, larger-span path tabulated).",
 		Run: func(c *Ctx) {
+			ruleOneRegistrationRemoved(c, "C09.R12") // readers are a multiset: un-registering one reader must not un-register its siblings
 			rulePendingSlicesAligned(c, "C09.R10") // "pending pages become free only when no registered reader's version can contain them": alloctx[i] must stay the allocating txid of ids[i]
 			ruleSpanCoversRequest(c, "C09.R11") // "returns the first id of n consecutive pages that were all free"
 			ruleFreeSetEntry(c, "C09.R1")
@@ -400,7 +401,24 @@ func ruleFreelistNoAlias(c *Ctx, id string) {
 			for _, ci := range callsIn(fn, "freelist.Interface.Init", "freelist.Interface.NoSyncReload") {
 				n++
 				bad := ""
-				for _, l := range provenance(ci.Common().Args[0], provOpts{ThroughCall: throughAll}) {
+				isClone := func(v ssa.Value) bool {
+					call, ok := v.(*ssa.Call)
+					if !ok {
+						return false
+					}
+					switch calleeOf(call).Name() {
+					case "slices.Clone", "bytes.Clone":
+						return true
+					}
+					if calleeOf(call).Static != nil && strings.HasPrefix(calleeOf(call).Static.Name(), "Clone[") && fnPkg(calleeOf(call).Static) != nil && fnPkg(calleeOf(call).Static).Path() == "slices" {
+						return true
+					}
+					if calleeOf(call).Builtin == "append" && len(call.Call.Args) == 2 && isNilConst(stripConv(call.Call.Args[0])) {
+						return true
+					}
+					return false
+				}
+				for _, l := range provenance(ci.Common().Args[0], provOpts{ThroughCall: throughAll, StopAt: isClone}) {
 					if l.Kind == "call" && (l.Name == "common.(*Page).FreelistPageIds" || l.Name == "bbolt.(*DB).page" || l.Name == "bbolt.(*Tx).page" || l.Name == "builtin:Slice") {
 						bad = "the id list derives from " + l.Name + " (memory of a page)"
 					}
